@@ -392,6 +392,11 @@ def run_check(prop: str, tier: str, engine_name, profile: Optional[Dict[str, Any
     out_lines: List[str] = []
     for kid, e in sorted(known_hits.items()):
         out_lines.append(f"KNOWN-FINDING: property={prop} {kid}: {e['finding']['what']} (seen {e['count']}x in this run)")
+    # every listed (open) finding of this property gets its line, also when this batch's
+    # seeds did not run into it (a seeded search meets a given finding only in some batches)
+    for k in known:
+        if prop in (k.get("properties") or [k["property"]]) and k["id"] not in known_hits:
+            out_lines.append(f"KNOWN-FINDING: property={prop} {k['id']}: {k['what'][:300]} (listed; not encountered in this run)")
 
     # distinct new violations -> minimise a few and write replay files
     seen_keys = set()
